@@ -330,7 +330,8 @@ def run(tier, seed, rng, known, replay):
     violations.extend(gv[:3])
     from props import surface
     for probe in (probe_d16, probe_processes, probe_busy_reopen, probe_key_format, lambda: '; '.join(surface.sqlite_pragmas()) or None,
-                  lambda: '; '.join(m_ for m_ in surface.fanout_subobjects() if 'unpickled' in m_ or 'persist' in m_) or None):
+                  lambda: '; '.join(m_ for m_ in surface.fanout_subobjects() if 'unpickled' in m_ or 'persist' in m_) or None,
+                  lambda: '; '.join(m_ for m_ in surface.constructors() if 'opening a Deque directory' in m_ or 'persisted' in m_) or None):
         v = probe()
         if v:
             k = base.match_known(known, {'cfg': {}}, None, v)
